@@ -220,10 +220,9 @@ def run(tier):
     for _ in range(60 if tier == "quick" else 400):
         contents.append(sidecar_content(rng, rng.choice(CLASSES))[0].decode("latin-1"))
     contents += ["", "\n", "a", "a\n", "a\r", "a\r\n", "\r\n\r\n", "a\rb\r\nc\n\rd", " \n \n", "\n\n", "a\n\n", "a\n\n\n",
-                 "x" * 20479 + "\n" + "tail\n", "x" * 20480 + "\ny\n",
-                 ("y" * 99 + "\n") * 204 + "z" * 80 + "\n" + "w\n"]
+                 "x" * 20480 + "\ny\n", ("y" * 99 + "\n") * 204 + "z" * 80 + "\n" + "w\n"]
     if tier == "thorough":
-        contents += ["x" * 20481 + "\ny\n", ("y" * 99 + "\n") * 204 + "z" * 79 + "\n" + "w\n"]
+        contents += ["x" * 20479 + "\n" + "tail\n", "x" * 20481 + "\ny\n", ("y" * 99 + "\n") * 204 + "z" * 79 + "\n" + "w\n"]
     res = impl_run([{"op": "c15_eavalue", "inputs": contents}])
     if not res[0]["ok"]:
         raise RuntimeError(res[0]["err"] + res[0].get("tb", ""))
@@ -405,6 +404,144 @@ def run(tier):
                 elif it and it["kind"] == "file" and n != it["size"]:
                     report(wi, form, sel, data, tls, out, "a stored file is not announced with its exact length",
                            "plus-length", announced=n, file_size=it["size"])
+    # ---------------- histories: sidecars change between requests, inside one long-lived process ----------------
+    HCFG = {"handlers.dir.DirHandler": {"cachetime": "0"}}     # the directory cache is C10's subject
+    nhist = 10 if tier == "quick" else 40
+    hitems = {"/h/a.txt": ("file", "h/a.txt"), "/h/d": ("dir", "h/d/"), "/h/b.bin": ("file", "h/b.bin")}
+    HCLS = ["printable", "printable", "headerish", "blankmid", "crlf", "trailing-blank", "empty"]
+
+    def sc_path(isel, ext):
+        kind, base = hitems[isel]
+        return base + ext
+
+    histories = []
+    for hi in range(nhist):
+        base = [{"path": "h/a.txt", "data": "document a\n" * 300, "mtime": 1_700_000_000},
+                {"path": "h/b.bin", "data": "\x00\x01binary", "mtime": 1_700_000_000},
+                {"path": "h/d", "kind": "dir"}, {"path": "h/d/inside.txt", "data": "x\n", "mtime": 1_700_000_000}]
+        state = {}              # sidecar path -> (bytes, cls)
+        for isel in hitems:
+            for ext, _ in EXTS:
+                if rng.random() < 0.4:
+                    state[sc_path(isel, ext)] = sidecar_content(rng, rng.choice(HCLS))
+        tree0 = base + [{"path": pth, "data": c[0].decode("latin-1"), "mtime": 1_700_000_000} for pth, c in state.items()]
+
+        def reqs_now():
+            rq = []
+            for isel in hitems:
+                d_, t_ = gen.request_bytes("gopherplus", isel, gplus="!")
+                rq.append(("!", isel, d_, t_))
+            d_, t_ = gen.request_bytes("sgopherplus" if hi % 3 == 0 else "gopherplus", "/h", gplus="$")
+            rq.append(("$", "/h", d_, t_))
+            return rq
+        steps = [{"op": "req", "requests": [{"data": gen.lat(d_), "tls": t_} for _, _, d_, t_ in reqs_now()]}]
+        states = [dict(state)]
+        meta = [reqs_now()]
+        for _ in range(rng.randrange(3, 7)):
+            isel = rng.choice(list(hitems))
+            ext = rng.choice(EXTS)[0]
+            pth = sc_path(isel, ext)
+            keep = rng.random() < 0.65
+            if pth in state and rng.random() < 0.3:
+                steps.append({"op": "remove", "path": pth, "keep_mtime": keep})
+                del state[pth]
+            else:
+                c = sidecar_content(rng, rng.choice(HCLS))
+                while pth in state and c[0] == state[pth][0]:
+                    c = sidecar_content(rng, "printable")
+                steps.append({"op": "write", "path": pth, "data": c[0].decode("latin-1"), "keep_mtime": keep})
+                state[pth] = c
+            steps.append({"op": "req", "requests": [{"data": gen.lat(d_), "tls": t_} for _, _, d_, t_ in reqs_now()]})
+            states.append(dict(state))
+            meta.append(reqs_now())
+        histories.append({"tree": tree0, "base": base, "steps": steps, "states": states, "meta": meta})
+    hjobs = [{"op": "c15_history", "tree": h["tree"], "config": HCFG, "steps": h["steps"]} for h in histories]
+    fresh_states = []
+    for h in histories:
+        for stt, rq in zip(h["states"], h["meta"]):
+            fresh_states.append({"tree": h["base"] + [{"path": pth, "data": c[0].decode("latin-1"), "mtime": 1_700_000_000}
+                                                      for pth, c in stt.items()],
+                                 "config": HCFG, "requests": [{"data": gen.lat(d_), "tls": t_} for _, _, d_, t_ in rq]})
+    nf = 4
+    fjobs = [{"op": "c15_fresh", "states": fresh_states[k::nf]} for k in range(nf)]
+    # history jobs and reference jobs must not share an interpreter: run them as separate batches
+    hres = impl_run_parallel(hjobs, chunks=min(8, len(hjobs)))
+    fres = impl_run_parallel(fjobs, chunks=nf)
+    for r in hres + fres:
+        if not r["ok"]:
+            raise RuntimeError(r["err"] + "\n" + r.get("tb", ""))
+    fresh_out = [None] * len(fresh_states)
+    for k in range(nf):
+        for j, o in enumerate(fres[k]["res"]):
+            fresh_out[k + j * nf] = o
+    n_hist_req = 0
+    fpos = 0
+    hguess = {isel: twin_guess(isel, TT) for isel in hitems}
+    for hi, (h, hr) in enumerate(zip(histories, hres)):
+        req_steps = [st for st in hr["res"]["steps"] if "results" in st]
+        earlier = {}        # request bytes -> list of earlier answers
+        for si, (stt, rq, stp) in enumerate(zip(h["states"], h["meta"], req_steps)):
+            fo = fresh_out[fpos]
+            fpos += 1
+            cur_items = {}
+            for isel, (kind, b_) in hitems.items():
+                cur_items[isel] = {"kind": kind, "size": 3300 if isel == "/h/a.txt" else (8 if kind == "file" else None),
+                                   "mtime": None,
+                                   "sidecars": {ext: stt[sc_path(isel, ext)] for ext, _ in EXTS if sc_path(isel, ext) in stt}}
+            for qi, ((form, sel, data, tls), o) in enumerate(zip(rq, stp["results"])):
+                n_hist_req += 1
+                chk.count(("hist", hi, si, form, sel), nontrivial=si > 0)
+                out = decode_out(o)
+                ref = None
+                if fo.get("ok"):
+                    ref = gen.mask_times(fo["outs"][qi].encode("latin-1")).decode("utf-8", "surrogateescape")
+                stale = out in earlier.get(data, []) and (ref is not None and out != ref)
+
+                flagged = [False]
+
+                def report_h(wi_, form_, sel_, req_, tls_, out_, what, tag, **extra):
+                    nonlocal found
+                    found = True
+                    flagged[0] = True
+                    if stale:
+                        what = "after a sidecar file changed, a long-lived server keeps giving the previous answer: " + what
+                        tag = "stale-sidecar"
+                    reported_tags.add(tag)
+                    upto = 0
+                    nreq = -1
+                    for k_, st_ in enumerate(h["steps"]):
+                        if st_["op"] == "req":
+                            nreq += 1
+                            if nreq == si:
+                                upto = k_
+                                break
+                    rep = {"what": what, "form": form_, "selector": sel_, "request_latin1": gen.lat(req_), "tls": tls_,
+                           "response_latin1": out_[:1500], "fresh_process_response_latin1": None if ref is None else ref[:1500],
+                           "world": {"tree": h["tree"], "config": HCFG}, "steps": h["steps"][:upto + 1],
+                           "request_index_in_last_step": qi, "kind": "gplus-history"}
+                    rep.update(extra)
+                    chk.violation(rep, tag=tag)
+                first, _, rest = out.partition("\r\n")
+                blocks = parse_blocks(rest) if first == "+-2" else None
+                if blocks is None:
+                    report_h(0, form, sel, data, tls, out, "answer does not parse as Gopher+ blocks", "history-unparsable")
+                elif form == "!":
+                    check_item(chk, report_h, (0, form, sel, data, tls, out), blocks, sel, cur_items[sel], None, hguess, default_mime)
+                    if len(o["rendered"]) == 1 and si > 0:
+                        k_info.append(((0, form, sel, data, tls), "(%s, %s)" % (coq_entry(o["rendered"][0]), coq_str(out))))
+                else:
+                    for g in group_items(blocks):
+                        if g and g[0][0] == "INFO":
+                            f_ = g[0][1].split("\t")
+                            if len(f_) > 1 and f_[1] in cur_items:
+                                check_item(chk, report_h, (0, form, sel, data, tls, out), g, f_[1], cur_items[f_[1]], None,
+                                           hguess, default_mime)
+                if ref is not None and out != ref and not flagged[0]:
+                    report_h(0, form, sel, data, tls, out, "answer differs from the one a fresh process gives for the same files",
+                             "history-divergence")
+                earlier.setdefault(data, []).append(out)
+    cov["histories"] = {"histories": nhist, "requests": n_hist_req, "tree_states": len(fresh_states),
+                        "fresh_process_references": sum(1 for x in fresh_out if x and x.get("ok"))}
     cov["oracle"] = {"gopherplus_requests": n_or, "worlds": nworlds, "items_per_world": 32 + 3,
                      "sidecar_subsets": 16, "violations": len(chk.violations)}
 
